@@ -1,7 +1,8 @@
 ---------------------------- MODULE Trace_Curves ----------------------------
 (* Judges the output the real library produced for the scenarios of Curves.tla.  One event per call:     *)
 (*   op    "flatten" | "replacearcs" | "xmonotone"                                                       *)
-(*   cv    the curve (as printed by Curves!Scenario), closed (sub-path closed by z), pre (a straight      *)
+(*   cv    the curve (as printed by Curves!Scenario), closed (sub-path closed by z), post (a closed triangle  *)
+(*         sub-path follows the curve's sub-path), pre (a straight                                          *)
 (*         sub-path M0 0 L3 2 precedes the curve)                                                        *)
 (*   tn,td the tolerance tn/td lattice units (flatten) ; for the rewrites the fixed bound of the statement *)
 (*   out   every sub-path of the result as a polyline in Q units (flatten: its vertices, exact for        *)
@@ -33,7 +34,12 @@ GapOf(ev) == CASE ev.cv.type = "quad"  -> QuadGap(ev.cv.pts)
                [] ev.cv.type = "chain" -> ChainGap(ev.cv)
                [] ev.cv.type = "arc" /\ ev.cv.shape = "chordrx" -> ChordRxGap
                [] OTHER -> ArcGap(ev.cv.shape)
-NSub(ev) == IF ev.pre THEN 2 ELSE 1
+\* index of the sub-path that holds the curve, number of sub-paths (post: a closed triangle follows the curve's sub-path)
+CIdx(ev) == IF ev.pre THEN 2 ELSE 1
+NSub(ev) == CIdx(ev) + (IF ev.post THEN 1 ELSE 0)
+\* the closed triangle M T 0 L T+u 0 L T+u u z after the curve (logged with its start point appended)
+PostTri(ev) == LET T == IF ev.cv.type \in {"quad", "cubic"} THEN 5 ELSE 200 u == IF ev.cv.type \in {"quad", "cubic"} THEN 1 ELSE 10 IN
+               << <<T, 0>>, <<T + u, 0>>, <<T + u, u>>, <<T, 0>> >>
 PreLine == << <<0, 0>>, <<3, 2>> >>
 \* ReplaceArcs: "fixed small relative error": 2.5e-3 of the larger radius (calibrated: the conversion of a 90 degree
 \* piece is off by 1.96e-3 r; DESIGN assumed 3e-4)
@@ -47,10 +53,11 @@ RV(ev) == CASE ev.op = "flatten" -> RadV(Q(ev), ev.tn, ev.td, 0)
             [] OTHER -> 2
 
 Structure(ev) ==
-    /\ ev.ok /\ SqrtsOK(ev.out[Len(ev.out)], ev.sq) /\ Len(ev.out) = NSub(ev) /\ Len(ev.cls) = NSub(ev)
+    /\ ev.ok /\ Len(ev.out) = NSub(ev) /\ Len(ev.cls) = NSub(ev) /\ SqrtsOK(ev.out[CIdx(ev)], ev.sq)
     /\ ev.pre => (ev.out[1] = [j \in 1..2 |-> SclPt(PreLine[j], Q(ev))] /\ ~ev.cls[1])
-    /\ LET pl == ev.out[NSub(ev)] wp == WPof(ev) IN
-       /\ ev.cls[NSub(ev)] = ev.closed /\ Len(pl) >= 1
+    /\ ev.post => (ev.out[NSub(ev)] = [j \in 1..4 |-> SclPt(PostTri(ev)[j], Q(ev))] /\ ev.cls[NSub(ev)])
+    /\ LET pl == ev.out[CIdx(ev)] wp == WPof(ev) IN
+       /\ ev.cls[CIdx(ev)] = ev.closed /\ Len(pl) >= 1
        /\ pl[1] = wp[1]
        /\ IF ev.closed THEN /\ pl[Len(pl)] = wp[1]
                             \* the end point of the curve lies on the closing edge (it is the vertex before the closing
@@ -59,11 +66,11 @@ Structure(ev) ==
                                \/ (Len(pl) >= 2 /\ WithinSeg(pl[Len(pl) - 1], pl[Len(pl)], wp[Len(wp)], 1))
           ELSE pl[Len(pl)] = wp[Len(wp)]
 \* the curve part of the output: without the appended closing point
-CurvePart(ev) == LET pl == ev.out[NSub(ev)] IN IF ev.closed /\ Len(pl) >= 2 THEN SubSeq(pl, 1, Len(pl) - 1) ELSE pl
-WayPointsNear(ev) == Cover(WPof(ev), 1, ev.out[NSub(ev)], 1, RW(ev), ev.sq) = 0
+CurvePart(ev) == LET pl == ev.out[CIdx(ev)] IN IF ev.closed /\ Len(pl) >= 2 THEN SubSeq(pl, 1, Len(pl) - 1) ELSE pl
+WayPointsNear(ev) == Cover(WPof(ev), 1, ev.out[CIdx(ev)], 1, RW(ev), ev.sq) = 0
 \* the accepted constant of the statement ("a small constant multiple of t") is c = 6: ordinary rounded-corner cubics of
 \* the unchanged library reach 4.1 - 4.5 t, which is not a defect (c = 4 of the first calibration was a false alarm)
-WayPointsNear6(ev) == Cover(WPof(ev), 1, ev.out[NSub(ev)], 1, (3 * RW(ev)) \div 2, ev.sq) = 0
+WayPointsNear6(ev) == Cover(WPof(ev), 1, ev.out[CIdx(ev)], 1, (3 * RW(ev)) \div 2, ev.sq) = 0
 VerticesNear(ev)  == LET wp == WPof(ev) IN Cover(CurvePart(ev), 1, wp, 1, RV(ev) + GapOf(ev), Sqrts(wp)) = 0
 \* circle / ellipse: every vertex in the annulus of half width RV around the curve (the ellipse is judged after stretching
 \* its short axis by 2, which enlarges distances by at most 2)
@@ -91,6 +98,6 @@ TInit == e \in 1..Len(Trace) /\ judged = FALSE /\ cv = 0 /\ done = TRUE
 Judge == /\ ~judged /\ judged' = TRUE /\ UNCHANGED <<e, cv, done>>
          /\ LET ev == Trace[e] v == Verdict(ev) IN
             v # {} => PrintT("@@" \o ToJson([l |-> e, why |-> v, rw |-> RW(ev), rv |-> RV(ev) + GapOf(ev),
-                                             wfail |-> IF Structure(ev) THEN Cover(WPof(ev), 1, ev.out[NSub(ev)], 1, RW(ev), ev.sq) ELSE 0 - 1]))
+                                             wfail |-> IF Structure(ev) THEN Cover(WPof(ev), 1, ev.out[CIdx(ev)], 1, RW(ev), ev.sq) ELSE 0 - 1]))
 TSpec == TInit /\ [][Judge]_tvars
 =============================================================================
